@@ -53,6 +53,8 @@ fn generate(_corpus: &Corpus, tier: Tier, run: u64, rng: &mut Rng) -> Option<Cas
     g.shuffles = false;
     g.externals = false;
     g.message_sites = rng.chance(1, 3);
+    // knot names a player may type after `->`: lower case, or with capitals
+    g.prefix = rng.pick(&["", "", "Up", "mixedCase_"]).to_string();
     let prog = crate::inkgen::generate(rng, &g)?;
     let kind = rng.below(10);
     let mode = if kind < 7 { "play" } else { "compile" };
@@ -463,10 +465,6 @@ fn run(case: &Case, dir: &std::path::Path, res: &mut CaseResult) -> Option<Strin
         "story.ink"
     };
     let keep_open = p["keep_open"].as_bool().unwrap_or(false);
-    let reference = reference(case, &stdin, keep_open);
-    if reference.fuel {
-        return Some("fuel".into());
-    }
     let mut args: Vec<String> = Vec::new();
     args.push(format!("-p{}{}", if json_mode { "j" } else { "" }, if keep_open { "k" } else { "" }));
     args.push(file.to_string());
@@ -480,6 +478,16 @@ fn run(case: &Case, dir: &std::path::Path, res: &mut CaseResult) -> Option<Strin
     }
     if !input.is_empty() && !input.ends_with('\n') {
         res.stats.inc("fault.input.no_final_newline");
+    }
+    // the reference reads what a line reader makes of these bytes: segments between line feeds, a last
+    // segment without one if it is not empty, a carriage return before the line feed dropped
+    let mut seen: Vec<String> = input.split('\n').map(|l| l.strip_suffix('\r').unwrap_or(l).to_string()).collect();
+    if seen.last().map(|l| l.is_empty()).unwrap_or(false) {
+        seen.pop();
+    }
+    let reference = reference(case, &seen, keep_open);
+    if reference.fuel {
+        return Some("fuel".into());
     }
     let at = format!("rinklecate {} < {:?}", args.join(" "), stdin);
     let out = run_child(&args, input.as_bytes(), chunks, dir)?;
